@@ -605,7 +605,7 @@ fn main() {
                                 st.evaluations += 1;
                                 st.count(if garbage { "t1_unhinted_garbage_mem" } else { "t1_unhinted_zero_mem" });
                                 if o != reference {
-                                    st.oracle_failure(json!({"key": format!("mem|{key}|{}", if garbage { "garbage" } else { "zero" }), "what": "caller memory of the advertised size draws differently from library memory", "offset": off, "size": need, "diff": first_diff(&reference, &o)}));
+                                    st.oracle_failure(json!({"key": format!("mem|{}|g{}|{:?}|{:?}|{}", f.name, gid, loc, style, if garbage { "garbage" } else { "zero" }), "what": "caller memory of the advertised size draws differently from library memory", "config": key, "offset": off, "size": need, "diff": first_diff(&reference, &o)}));
                                 }
                             }
                         }
